@@ -442,6 +442,19 @@ func (e *kvElection) becomeLeader(token string, rev uint64) {
 	}
 }
 
+// noteObservedLeader records another instance's claim as seen by a follower.
+// A leader's own view of the leader is only changed by its own transitions,
+// so an observation that races with a promotion is dropped.
+func (e *kvElection) noteObservedLeader(id string, rev uint64) {
+	e.mu.Lock()
+	defer e.mu.Unlock()
+	if e.isLeader.Load() {
+		return
+	}
+	e.leaderID.Store(id)
+	e.observedRevision.Store(rev)
+}
+
 func (e *kvElection) attemptPriorityTakeover(payloadBytes []byte) error {
 	entry, err := e.kv.Get(e.key)
 	if err != nil {
@@ -454,8 +467,7 @@ func (e *kvElection) attemptPriorityTakeover(payloadBytes []byte) error {
 	}
 
 	if e.cfg.Priority <= currentPayload.Priority {
-		e.leaderID.Store(currentPayload.ID)
-		e.observedRevision.Store(entry.Revision())
+		e.noteObservedLeader(currentPayload.ID, entry.Revision())
 		return fmt.Errorf("current leader has equal or higher priority: %d >= %d", currentPayload.Priority, e.cfg.Priority)
 	}
 
